@@ -165,6 +165,8 @@ inductive GOut
   | badMessage
   /-- an adapter error passed on by `?` as `Error::Chain`: tolerated by `try_break!`, nothing is sent -/
   | chainErr
+  /-- an `io::Error` passed on by `?` as `Error::Connection`: NOT tolerated (unless `TimedOut` / `WouldBlock`) -/
+  | ioErr
 deriving DecidableEq, Repr
 
 /-- `Protocol::consume` behind the `TrackingAdapter` -/
@@ -290,7 +292,7 @@ def typeName (t : Nat) : String :=
 def GOut.name : GOut → String
   | .none => "None" | .pong _ _ => "Response:Pong" | .stored t => "Response:" ++ typeName t
   | .storedAtt t => "Response:" ++ typeName t ++ "+attachment" | .attachment _ => "Attachment"
-  | .disconnect => "Disconnect" | .badMessage => "Err:BadMessage" | .chainErr => "?:Chain"
+  | .disconnect => "Disconnect" | .badMessage => "Err:BadMessage" | .chainErr => "?:Chain" | .ioErr => "?:Connection"
 
 /-- the `pub fn send_*` of `impl Peer` a request of the harness calls -/
 def Out.sender : Out → String
@@ -323,6 +325,17 @@ def consumeGlueF (g : Glue) (m : In) (f : String) : Glue × List Call × GOut :=
   match truncAt f (consumeGlue g m).2.1 with
   | some pre => ((consumeGlue g m).1, pre, .chainErr)
   | none => consumeGlue g m
+
+/-- `Protocol::consume` when the `io` point of the arm fails (`OpenOptions::create_new(..).open(path)?` of an accepted
+`TxHashSetArchive`: the temporary file already exists): everything before it has happened - the request is used
+up, the adapter was asked - no attachment is expected, the error is `Error::Connection`, the reader loop ends -/
+def consumeGlueIo (g : Glue) (m : In) : Glue × List Call × GOut :=
+  match m with
+  | .archive _ bytes =>
+    if !g.banned && g.ready && g.syncRequested then
+      ({ g with syncRequested := false }, [.receiveReady, .downloadUpdate 0 bytes, .tmpfile], .ioErr)
+    else consumeGlue g m
+  | _ => consumeGlue g m
 
 /-- `Peer::is_abusive`: more than `MAX_PEER_MSG_PER_MIN` counted entries in the receive tracker -/
 def isAbusive (receivedEntries : List (Nat × Bool)) : Bool :=
